@@ -1,23 +1,37 @@
 // List of property modules (kept separate so that a development build can include a subset).
 prop_mod!(mpc, "mpc.rs");
 prop_mod!(c01, "c01.rs");
+#[cfg(descriptive_gate)]
 prop_mod!(c02, "c02.rs");
+#[cfg(descriptive_gate)]
 prop_mod!(c03, "c03.rs");
+#[cfg(descriptive_gate)]
 prop_mod!(c04, "c04.rs");
+#[cfg(descriptive_gate)]
 prop_mod!(c05, "c05.rs");
+#[cfg(descriptive_gate)]
 prop_mod!(c06, "c06.rs");
+#[cfg(descriptive_gate)]
 prop_mod!(c08, "c08.rs");
+#[cfg(descriptive_gate)]
 prop_mod!(c12, "c12.rs");
 
 fn dispatch(env: &common::Env) -> (&'static str, Vec<common::Sub>) {
     match env.prop.as_str() {
         "C01" => (c01::LEVEL, c01::subs(env)),
+        #[cfg(descriptive_gate)]
         "C02" => (c02::LEVEL, c02::subs(env)),
+        #[cfg(descriptive_gate)]
         "C03" => (c03::LEVEL, c03::subs(env)),
+        #[cfg(descriptive_gate)]
         "C04" => (c04::LEVEL, c04::subs(env)),
+        #[cfg(descriptive_gate)]
         "C05" => (c05::LEVEL, c05::subs(env)),
+        #[cfg(descriptive_gate)]
         "C06" => (c06::LEVEL, c06::subs(env)),
+        #[cfg(descriptive_gate)]
         "C08" => (c08::LEVEL, c08::subs(env)),
+        #[cfg(descriptive_gate)]
         "C12" => (c12::LEVEL, c12::subs(env)),
         other => panic!("no harness for property {other} in this build"),
     }
